@@ -324,7 +324,7 @@ void ExecImpl::op_call(const Op& op) {
     if (cat == SEQ && o.reports.size() == 1) {
       PRep pr = parse_report(o.reports[0]);
       if (pr.kind == RK_FORBIDDEN) {
-        for (int id : mset) if (M.exps[id].forb() && pr.text == M.exps[id].sd().text && pr.tline == M.exps[id].sd().line) { ++st.relax_forbid_seq; M.exps[id].named = true; want.clear(); XRep x; x.kind = RK_FORBIDDEN; x.fatal = true; x.exp = id; x.fn = fn; x.args[0] = args[0]; x.args[1] = args[1]; want.push_back(x); break; }
+        for (int id : mset) if (M.exps[id].forb() && pr.text == M.exps[id].sd().text && pr.tline == M.exps[id].line) { ++st.relax_forbid_seq; M.exps[id].named = true; want.clear(); XRep x; x.kind = RK_FORBIDDEN; x.fatal = true; x.exp = id; x.fn = fn; x.args[0] = args[0]; x.args[1] = args[1]; want.push_back(x); break; }
       }
     }
     check_reports(o, want, false, "call", kind_props("C01,C15").c_str());
@@ -430,22 +430,25 @@ void ExecImpl::op_call(const Op& op) {
       return;
     }
   }
+  struct Pend { std::string props; const char* oracle; std::string text; };
+  std::vector<Pend> pend;
   // OK report (C16)
   {
     const bool threw = o.outcome == OC_THREW_FAULT || o.outcome == OC_THREW_STD || o.outcome == OC_THREW_INT;
-    if (o.oks.size() != 1) { fail(threw ? "C16,C08" : "C16", "ok_count", std::to_string(o.oks.size()) + " OK reports for one accepted call; " + call_desc()); return; }
-    if (o.oks[0].gen != gen) { fail("C16", "ok_route", "OK report delivered to reporter generation " + std::to_string(o.oks[0].gen) + ", installed is " + std::to_string(gen)); return; }
-    if (o.oks[0].msg != d.text) { fail("C16", "ok_text", "OK report text '" + o.oks[0].msg + "' but the call was handled by " + describe_exp(cand)); return; }
+    if (o.oks.size() != 1) { pend.push_back(Pend{threw ? "C16,C08" : "C16", "ok_count", std::to_string(o.oks.size()) + " OK reports for one accepted call; " + call_desc()}); goto ok_done; }
+    if (o.oks[0].gen != gen) { pend.push_back(Pend{"C16", "ok_route", "OK report delivered to reporter generation " + std::to_string(o.oks[0].gen) + ", installed is " + std::to_string(gen)}); goto ok_done; }
+    if (o.oks[0].msg != d.text) { pend.push_back(Pend{"C16", "ok_text", "OK report text '" + o.oks[0].msg + "' but the call was handled by " + describe_exp(cand)}); goto ok_done; }
     ++st.p_ok_reports;
   }
+ok_done:;
   // trace (C17)
   {
     if (top_tracer < 0) {
-      if (!o.traces.empty()) { fail("C17", "trace_without_tracer", "a trace record was delivered while no tracer is alive"); return; }
+      if (!o.traces.empty()) { pend.push_back(Pend{"C17", "trace_without_tracer", "a trace record was delivered while no tracer is alive"}); goto trace_done; }
     } else {
-      if (o.traces.size() != 1) { fail("C17", "trace_count", std::to_string(o.traces.size()) + " trace records for one accepted call (innermost tracer#" + std::to_string(top_tracer) + "); " + call_desc()); return; }
+      if (o.traces.size() != 1) { pend.push_back(Pend{"C17", "trace_count", std::to_string(o.traces.size()) + " trace records for one accepted call (innermost tracer#" + std::to_string(top_tracer) + "); " + call_desc()}); goto trace_done; }
       const RawTrace& t = o.traces[0];
-      if (t.tracer != top_tracer) { fail("C17", "trace_route", "trace record went to tracer#" + std::to_string(t.tracer) + " but the innermost live tracer is #" + std::to_string(top_tracer)); return; }
+      if (t.tracer != top_tracer) { pend.push_back(Pend{"C17", "trace_route", "trace record went to tracer#" + std::to_string(t.tracer) + " but the innermost live tracer is #" + std::to_string(top_tracer)}); goto trace_done; }
       std::string wantmsg = std::string(d.text) + " with.\n";
       for (int i = 0; i < fd.arity; ++i) wantmsg += "  param  _" + std::to_string(i + 1) + arg_text(fn, args[i]) + "\n";
       switch (o.outcome) {
@@ -461,12 +464,22 @@ void ExecImpl::op_call(const Op& op) {
         if (detail::parse_param(line, "  param", pp)) got += "  param  _" + std::to_string(pp.idx) + normalise_value(pp.rest) + "\n";
         else got += line + "\n";
       }
-      if (t.file != exp_file(e) || t.line != d.line || got != wantmsg) {
-        fail("C17", "trace_content", "trace record [" + t.file + ":" + std::to_string(t.line) + "] '" + t.msg + "' but expected [" + exp_file(e) + ":" + std::to_string(d.line) + "] '" + wantmsg + "'");
+      if (t.file != exp_file(e) || t.line != e.line || got != wantmsg) {
+        fail("C17", "trace_content", "trace record [" + t.file + ":" + std::to_string(t.line) + "] '" + t.msg + "' but expected [" + exp_file(e) + ":" + std::to_string(e.line) + "] '" + wantmsg + "'");
         return;
       }
       ++st.p_trace_records;
     }
+  }
+trace_done:;
+  // the OK report and the trace record are independent observations of the same call: whichever disagrees is reported,
+  // and when both do, both owners are named
+  if (!pend.empty()) {
+    std::string props = pend[0].props;
+    for (size_t k = 1; k < pend.size(); ++k) if (props.find(pend[k].props) == std::string::npos) props += "," + pend[k].props;
+    std::string text = pend[0].text;
+    for (size_t k = 1; k < pend.size(); ++k) text += " ;; also: " + pend[k].text;
+    fail(props.c_str(), pend[0].oracle, text);
   }
 }
 
